@@ -280,17 +280,17 @@ func (commit *Commit) FirstPrecommit() *Vote {
 }
 
 func (commit *Commit) Height() int64 {
-	if len(commit.Precommits) == 0 {
-		return 0
+	if fp := commit.FirstPrecommit(); fp != nil {
+		return fp.Height
 	}
-	return commit.FirstPrecommit().Height
+	return 0 // no precommits, or all of them nil
 }
 
 func (commit *Commit) Round() int64 {
-	if len(commit.Precommits) == 0 {
-		return 0
+	if fp := commit.FirstPrecommit(); fp != nil {
+		return fp.Round
 	}
-	return commit.FirstPrecommit().Round
+	return 0 // no precommits, or all of them nil
 }
 
 func (commit *Commit) Type() byte {
